@@ -121,7 +121,7 @@ class GW1NPLL(LiteXModule):
 
     def compute_config(self):
         # extract the highest frequency and associated margin
-        freq_max, m = max([(f, n) for (_, f, _, n) in self.clkouts.values()], key=lambda p: p[1])
+        freq_max, m = max([(f, n) for (_, f, _, n) in self.clkouts.values()], key=lambda p: p[0])
 
         configs = [] # corresponding VCO/FBDIV/IDIV/ODIV params + diff
 
